@@ -20,6 +20,8 @@ func init() {
 			ruleOptionScope(c)
 			ruleAddCodecs(c)
 			ruleKeySelf(c)
+			ruleDefaultInit(c)
+			ruleTagExact(c)
 			ruleSliceWrapOnly(c)
 		},
 	})
